@@ -78,6 +78,14 @@ OuterLoop:
 					arg = []byte{byte(n)}
 					tmpMem += t.RequireBytes(1)
 					outFormat[i] = 's'
+					if spec, ok := parseIntSpec(format[start:i]); ok && start < i {
+						// A precision has no meaning for %c
+						spec.prec = -1
+						arg = spec.formatString(string([]byte{byte(n)}))
+						for k := start; k < i; k++ {
+							outFormat[k] = ' ' // flag without effect on %s
+						}
+					}
 					break ArgLoop
 				case 'b', 'd', 'o', 'x', 'X', 'U', 'i', 'u':
 					// integer verbs
@@ -151,6 +159,13 @@ OuterLoop:
 					}
 					tmpMem += t.RequireBytes(len(s))
 					arg = string(s)
+					if spec, ok := parseIntSpec(format[start:i]); ok && start < i {
+						// Go counts width and precision in runes, C in bytes
+						arg = spec.formatString(string(s))
+						for k := start; k < i; k++ {
+							outFormat[k] = ' ' // flag without effect on %s
+						}
+					}
 					break ArgLoop
 				case 'q':
 					// quote, only for literals I think
@@ -347,6 +362,23 @@ func (spec intSpec) format(verb byte, n int64) string {
 		return prefix + digits + strings.Repeat(" ", pad)
 	default:
 		return strings.Repeat(" ", pad) + prefix + digits
+	}
+}
+
+// formatString renders s as C's printf does for %s: at most prec bytes,
+// padded with spaces to width bytes (only the '-' flag has a meaning).
+func (spec intSpec) formatString(s string) string {
+	if spec.prec >= 0 && spec.prec < len(s) {
+		s = s[:spec.prec]
+	}
+	pad := spec.width - len(s)
+	switch {
+	case pad <= 0:
+		return s
+	case spec.minus:
+		return s + strings.Repeat(" ", pad)
+	default:
+		return strings.Repeat(" ", pad) + s
 	}
 }
 
